@@ -173,6 +173,8 @@ func c02inProcess(ctx *Ctx) {
 		}
 		r.Set("setup_request_sizes_aimed_at", []int{2046, 2047, 2048})
 	}
+	// a procedure that never returns (it waits for octets that will not come) is a violation, not a reason for the check to wait
+	wd := startWatchdog(r, 5*time.Second, "establish/does-not-return")
 	for ipIdx, ip := range c02ips {
 		for teidIdx, teid := range c02teids {
 			for upfIdx, upf := range c02ips {
@@ -234,6 +236,7 @@ func c02inProcess(ctx *Ctx) {
 					conn := sctp.NewSCTPConn(fds[1], nil)
 					var gotIP, gotUPF, snapIP, snapUPF, gotIP2, gotUPF2 net.IP
 					var gotTEID, gotTEID2 uint32
+					wd.enter(cs)
 					perr := recoverErr(func() {
 						stgutg.ManageNGSetup(conn, emu.GnbID, emu.IMSI, emu.MNC, uint64(emu.GnbBits), emu.GnbName)
 						ue := stgutg.CreateUE(emu.IMSI, 0, emu.K, emu.OPc, emu.OP)
@@ -246,6 +249,7 @@ func c02inProcess(ctx *Ctx) {
 							gotIP2, gotTEID2, gotUPF2 = stgutg.EstablishPDU(int32(emu.SST), emu.SD, ueB, conn, emu.GnbGtpIP)
 						}
 					})
+					wd.leave()
 					syscall.Shutdown(fds[0], syscall.SHUT_RDWR) // wakes the AMF goroutine; wait for it before the descriptor number can be reused
 					<-amfDone
 					syscall.Close(fds[0])
